@@ -119,7 +119,7 @@ def run_case(case, ctx):
     two = [{'kind': 'server', 'host': 'noisy.example', 'ip': '192.0.2.9', 'port': 2222, 'profile': noisy},
            {'kind': 'server', 'host': 'srv.example', 'ip': '192.0.2.10', 'port': 2222, 'profile': profile(case, False, 'server')}]
     plans['after_other_target'] = multi.multi_plan({'targets': two, 'pseed': case['pseed'], 'sched': {'policy': 'run_to_block', 'seed': 0}}, list(case['opts']), 1, ctx.scratch())
-    lookup_name = dbname if dbname is not None else name
+    lookup_name = name      # the name as the peer advertises it (for gss-* key exchanges the concrete name, not the database's wildcard entry)
     plans['lookup'] = {'seed': case['pseed'], 'argv': ['-n', '--lookup', lookup_name], 'world': {}}
     for vname, plan in plans.items():
         rec = ctx.run(plan)
